@@ -93,6 +93,18 @@ def phase2_grid(tier):
                             for br in (False, True):
                                 yield {"fam": fam, "x0": x0, "limits": limit_settings(x0)[lname], "tol": tol, "kw": kw, "tw": None,
                                        "nsm": 20, "broyden": br, "dv": (), "dt": (), "lname": lname, "phase2": x1}
+    # the optimizer is re-used after the user changed tolerances or target values; knobs stay where the first solve left them
+    # (phase2 = None-like: same knobs), with 0, 1 or 20 further steps
+    for fam in fams:
+        F = O.FAMILIES[fam]
+        for x0 in starts(fam)[:2]:
+            for tol1, tol2 in ((1e-3, 1e-9), (1e-2, 1e-6), (1e-9, 1e-3)):
+                for dval in (0.0, 0.5):
+                    for steps in (0, 1, 20):
+                        for kw in (None, KW_MIXED[:F["nk"]]):
+                            yield {"fam": fam, "x0": x0, "limits": None, "tol": tol1, "kw": kw, "tw": None, "nsm": 20, "broyden": False,
+                                   "dv": (), "dt": (), "lname": "none", "phase2": (), "phase2_tol": tol2, "phase2_dval": dval,
+                                   "phase2_steps": steps, "phase2_flag": True}
 
 
 def fault_grid(tier):
@@ -111,9 +123,10 @@ def fault_grid(tier):
 
 def issue(spec, what, fail_at=None):
     prog = [f"problem: {O.spec_str(spec)}", f"opt.solve(broyden={spec.get('broyden', False)!r})"]
-    if spec.get("phase2"):
+    if spec.get("phase2") or spec.get("phase2_flag"):
         prog = [prog[0], "opt.solve()   # first solve, any outcome", f"knobs moved by the user to {spec['phase2']!r}",
-                f"opt.solve(n_steps=1, broyden={spec.get('broyden', False)!r})"]
+                f"target tolerances set to {spec.get('phase2_tol')!r}, target values shifted by {spec.get('phase2_dval', 0.0)!r}",
+                f"opt.solve(n_steps={spec.get('phase2_steps', 1)}, broyden={spec.get('broyden', False)!r})"]
     if fail_at is not None:
         prog.insert(1, f"the user's action raises at its call #{fail_at} (counted from the start of solve())")
     return {"kind": "violation", "property": "C09", "finding": None, "what": what, "config": {}, "program": prog,
@@ -124,7 +137,7 @@ def run_solve(spec, fail_at=None):
     """returns (outcome, issue-or-None, ncalls during solve)"""
     p = O.Problem(spec)
     row0 = p.log_rows()[0]
-    if spec.get("phase2"):
+    if spec.get("phase2") or spec.get("phase2_flag"):
         # the optimizer is re-used: a first solve (any outcome), then the user moves the knobs and solves again briefly
         try:
             p.opt.solve()
@@ -133,13 +146,23 @@ def run_solve(spec, fail_at=None):
         row0 = p.log_rows()[0]
         for i, v in enumerate(spec["phase2"]):
             p.knobs[f"k{i}"] = float(v)
+        if spec.get("phase2_tol") is not None:
+            # the user tightens / loosens the tolerances of the existing targets
+            for i, t in enumerate(p.opt.targets):
+                t.tol = spec["phase2_tol"]
+            p.tols = [spec["phase2_tol"]] * p.nt
+        if spec.get("phase2_dval"):
+            # ... or moves the target values
+            for i, t in enumerate(p.opt.targets):
+                t.value = t.value + spec["phase2_dval"]
+            p.tvals = [v + spec["phase2_dval"] for v in p.tvals]
     calls0 = p.calls
     if fail_at is not None:
         p.fail_at = calls0 + fail_at
     exc = None
     try:
-        if spec.get("phase2"):
-            ret = p.opt.solve(n_steps=1, broyden=spec.get("broyden", False))
+        if spec.get("phase2") or spec.get("phase2_flag"):
+            ret = p.opt.solve(n_steps=spec.get("phase2_steps", 1), broyden=spec.get("broyden", False))
         else:
             ret = p.opt.solve(broyden=spec.get("broyden", False))
     except Exception as e:  # noqa
